@@ -103,15 +103,16 @@ var sanctionedErrSites = map[string]string{
 }
 
 var sanctionedErrClassify = map[string]string{
-	"py|(*py.Iterator).M__next__|call (py.I__getitem__).M__getitem__": "IndexError",
-	"py|(*py.Iterator).M__next__|call py.TypeCall1":                   "IndexError",
-	"py|py.ZipTypeNew|call py.Iter":                                   "TypeError",
-	"py|(*py.BigInt).M__truediv__|call py.MakeFloat":                  "TypeError",
-	"py|(*py.BigInt).M__rtruediv__|call py.MakeFloat":                 "TypeError",
-	"py|(py.Int).M__truediv__|call py.MakeFloat":                      "TypeError",
-	"py|(py.Int).M__rtruediv__|call py.MakeFloat":                     "TypeError",
-	"stdlib/builtin|stdlib/builtin.builtin_getattr|call py.GetAttr":   "AttributeError",
-	"stdlib/builtin|stdlib/builtin.builtin_hasattr|call py.GetAttr":   "AttributeError",
+	"py|py.ImportModuleLevelObject|call (py.Context).ResolveAndCompile": "FileNotFoundError",
+	"py|(*py.Iterator).M__next__|call (py.I__getitem__).M__getitem__":   "IndexError",
+	"py|(*py.Iterator).M__next__|call py.TypeCall1":                     "IndexError",
+	"py|py.ZipTypeNew|call py.Iter":                                     "TypeError",
+	"py|(*py.BigInt).M__truediv__|call py.MakeFloat":                    "TypeError",
+	"py|(*py.BigInt).M__rtruediv__|call py.MakeFloat":                   "TypeError",
+	"py|(py.Int).M__truediv__|call py.MakeFloat":                        "TypeError",
+	"py|(py.Int).M__rtruediv__|call py.MakeFloat":                       "TypeError",
+	"stdlib/builtin|stdlib/builtin.builtin_getattr|call py.GetAttr":     "AttributeError",
+	"stdlib/builtin|stdlib/builtin.builtin_hasattr|call py.GetAttr":     "AttributeError",
 }
 
 func runErrorDiscipline(c *Ctx, r *Rep) {
